@@ -67,7 +67,9 @@ def same(cmd, m, i):
         a, b = parse_q(m[4:]), parse_q(i[4:])
         if a == b:
             return True
-        return abs(a - b) <= REL * max(abs(a), abs(b))
+        # the floor of 1 covers cancellation: a result that is exactly 0 in the model and a rounding
+        # residue (2^-52 times an intermediate value) in float arithmetic
+        return abs(a - b) <= REL * max(abs(a), abs(b), 1)
     if m.startswith('exn Internal') and i.startswith('exn Internal'):
         return True
     if m.startswith('counters') and i.startswith('counters'):
@@ -85,6 +87,7 @@ class Result:
         self.zero_div = 0
         self.exact_vals = 0
         self.inexact_vals = 0
+        self.floor_vals = 0          # equal only under the absolute floor (cancellation to ~0)
         self.op_hist = {}
         self.exn_hist = {}
         self.msg_hist = {}
@@ -130,6 +133,9 @@ def run_histories(exe, histories, pens, impl_factory, res=None, stop_at_first=Tr
                     res.exact_vals += 1
                 else:
                     res.inexact_vals += 1
+                    a_, b_ = parse_q(m[4:]), parse_q(i[4:])
+                    if abs(a_ - b_) > REL * max(abs(a_), abs(b_)):
+                        res.floor_vals += 1
             if not same(l, m, i):
                 res.disagreements.append(dict(history=hi, index=k, cmd=l, model=m, impl=i))
                 dead = True
@@ -158,9 +164,13 @@ def run_sharded(exe, histories, pens):
         owner[-1] = (c, owner[-1][1], len(h) + 1)
     import threading
     outs = [None] * shards
+    errs = {}
 
     def work(c):
-        outs[c] = common.run_driver(exe, chunks[c], shards=1) if chunks[c] else []
+        try:
+            outs[c] = common.run_driver(exe, chunks[c], shards=1) if chunks[c] else []
+        except common.TieBroken as ex:
+            errs[c] = ex.detail
     ths = [threading.Thread(target=work, args=(c,)) for c in range(shards)]
     for t in ths:
         t.start()
@@ -168,7 +178,7 @@ def run_sharded(exe, histories, pens):
         t.join()
     for c in range(shards):
         if outs[c] is None:
-            raise common.TieBroken('model driver engine', 'shard %d failed' % c)
+            raise common.TieBroken('model driver engine', 'shard %d failed: %s' % (c, errs.get(c, '?')))
     res = []
     for c, start, ln in owner:
         res += outs[c][start:start + ln]
